@@ -46,6 +46,7 @@ def check_pair(rng, prog):
     if a != b:
         diff = [k for k in a if a[k] != b.get(k)]
         return {'python_without': base, 'python_with': withres, 'differs': diff[:5]}
+    if prog.get('complex'): return None
     # chain rule through intermediates: w depends on x only through m
     from GTC import reporting, core
     for m in declared:
@@ -63,7 +64,7 @@ def check_pair(rng, prog):
 def search(rng, tier, broken):
     n = 300 if tier == 'quick' else 5000
     for i in range(n):
-        prog = slp.gen(rng)
+        prog = slp.gen_c(rng) if i % 3 == 2 else slp.gen(rng)
         r = check_pair(rng, prog)
         if r is not None:
             return {'tried': i + 1, 'failing': r}
@@ -107,6 +108,13 @@ def correspondence(rng, tier):
     r['distinct'] = r.get('distinct', 0) + f.get('distinct', 0)
     r.setdefault('distribution', {})['complex_promotion'] = f.get('programs', 0)
     r['rule'] = r.get('rule', '') + '; plus complex_promotion: a real operand of every role (declared intermediate or not) combined with complex literals on both sides incl. every identity shortcut, against the model CKernel.v (result() must stay transparent)'
+    # extra_corr: complex_result_dof: dof (Willink-Hall), variance and component dofs of a complex number before and after result(), circular finite-dof inputs
+    f = __import__('cgen').run_ckernel_corr(rng, 'resultdf', 'C06d', tier=tier)
+    r['mismatches'] += f.get('mismatches', [])
+    r['programs'] += f.get('programs', 0); r['steps'] += f.get('steps', 0)
+    r['distinct'] = r.get('distinct', 0) + f.get('distinct', 0)
+    r.setdefault('distribution', {})['complex_result_dof'] = f.get('programs', 0)
+    r['rule'] = r.get('rule', '') + '; plus complex_result_dof: dof / variance of complex results of circular (and non-circular) finite-dof inputs read before and after result(), of the declared intermediate used again and re-declared, against the model CKernel.v (Willink-Hall loop; result() must not change the dof)'
     # extra_corr: array_result: result(array) over every rank, memory layout and label form (model Array.v C16_result + per-element checks)
     import arrays
     q = arrays.result_correspondence(rng, tier, 'C06res')
